@@ -202,7 +202,9 @@ class _Builder:
                 elems: Set[Shape] = set()
                 for s in ss:
                     elems |= set(s[1])
-                al = AbsList(self.value_of(elems, f"{path}[*]"), min(s[2] for s in ss))
+                import re as _re
+                m = _re.match(r"^p\[(\d+)\]$", path)
+                al = AbsList(self.value_of(elems, f"{path}[*]"), min(s[2] for s in ss), [int(m.group(1))] if m else ["?"])
                 al.created_in = "parse"  # type: ignore[attr-defined]
                 al.from_symbol = path  # type: ignore[attr-defined]
                 opts.append(al)
